@@ -168,7 +168,7 @@ func main() {
 			}
 			c := runScenario(f, idx, *seed, *tier, *prop, rep, false)
 			rep.Evaluations++
-			if hp := os.Getenv("VERIF_HEAPPROF"); hp != "" && rep.Evaluations%50 == 0 {
+			if hp := os.Getenv("VERIF_HEAPPROF"); hp != "" && (rep.Evaluations%50 == 0 || os.Getenv("VERIF_HEAPPROF_EVERY") != "") {
 				runtime.GC()
 				if fh, err := os.Create(hp); err == nil {
 					_ = pprof.WriteHeapProfile(fh)
